@@ -138,6 +138,31 @@ pub fn sk_shapes(p: &'static Params, base: &refmodel::KeyGenOut) -> Vec<(String,
     let alt: Poly = core::array::from_fn(|i| if i % 2 == 0 { eta } else { -eta });
     let altt: Poly = core::array::from_fn(|i| if i % 2 == 0 { 4096 } else { -4095 });
     out.push(("alternating_extremes".to_string(), enc(&base.rho, &base.key, &base.tr, &vec![alt; p.l], &vec![alt; p.k], &vec![altt; p.k])));
+    // whole-polynomial structure that no single-field sweep and no generated key has: constant secrets for every legal
+    // value, the zero secret (the private key of the t1 = 0 public key), zero t0, and one zero polynomial at a time
+    for c in -eta..=eta {
+        out.push((format!("s_all_{c}"), enc(&base.rho, &base.key, &base.tr, &vec![const_poly(c); p.l], &vec![const_poly(c); p.k], &base.t0)));
+    }
+    out.push(("t0_all_zero".to_string(), enc(&base.rho, &base.key, &base.tr, &base.s1, &base.s2, &vec![POLY0; p.k])));
+    out.push(("s_zero_t0_zero".to_string(), enc(&base.rho, &base.key, &base.tr, &vec![POLY0; p.l], &vec![POLY0; p.k], &vec![POLY0; p.k])));
+    for i in 0..p.l {
+        let mut s1 = base.s1.clone();
+        s1[i] = POLY0;
+        out.push((format!("s1[{i}]_zero"), enc(&base.rho, &base.key, &base.tr, &s1, &base.s2, &base.t0)));
+    }
+    for i in 0..p.k {
+        let mut s2 = base.s2.clone();
+        s2[i] = POLY0;
+        out.push((format!("s2[{i}]_zero"), enc(&base.rho, &base.key, &base.tr, &base.s1, &s2, &base.t0)));
+        let mut t0 = base.t0.clone();
+        t0[i] = POLY0;
+        out.push((format!("t0[{i}]_zero"), enc(&base.rho, &base.key, &base.tr, &base.s1, &base.s2, &t0)));
+        for v in [1, -1] {
+            let mut t0 = base.t0.clone();
+            t0[i] = const_poly(v);
+            out.push((format!("t0[{i}]_all_{v}"), enc(&base.rho, &base.key, &base.tr, &base.s1, &base.s2, &t0)));
+        }
+    }
     out
 }
 
